@@ -18,7 +18,13 @@
  *                                      Model/CpuPaths.lean to the silicon.  Registers are 16 bytes in memory order.
  *
  * Every buffer is an exact-size allocation whose END is the end of the block (ASan sees any
- * over-read) and whose alignment prefix is poisoned (ASan sees any under-read). */
+ * over-read) and whose alignment prefix is poisoned (ASan sees any under-read).
+ *
+ * With -DHC_BLACKBOX (notes/blackbox.md) the units h_cpu_{sha,crc,aes,ctr}.c #include nothing of the library:
+ * `path` answers from the public cpusupport_* functions / crypto_aes_can_use_intrinsics() (L2 part, as before),
+ * `force` is not available (stripped from the cases: they run with the natural selection of the build),
+ * `xform` goes through SHA256_CTX + SHA256_Update, the L2 parts of `xform` (W) and `ctr` (bytectr/pblk/buf) are
+ * not printed.  The dispatch is never pinned, so there is nothing to reset between cases. */
 #include <sanitizer/asan_interface.h>
 #include <immintrin.h>
 #include "hcommon.h"
@@ -145,6 +151,11 @@ main(void)
 			init_all();
 			printf("path | ");
 			print_paths();
+#ifdef HC_BLACKBOX
+		} else if (hc_is("force", 0)) {
+			/* pinning a variant needs the private dispatch variables: `force` is not sent in black-box mode */
+			printf("skip");
+#else
 		} else if (hc_is("force", 0)) {
 			hcpu_sha_force();
 			hcpu_crc_force();
@@ -153,6 +164,7 @@ main(void)
 			init_all();
 			printf("force | ");
 			print_paths();
+#endif
 		} else if (hc_is("sha", 2)) {
 			b = hc_unhex(hc_tok[2], &blen);
 			buf = place(&pl, blen, (size_t)atoi(hc_tok[1]));
@@ -195,6 +207,7 @@ main(void)
 				for (i = 0; i < 8; i++)
 					be32enc(&dig[4 * i], st[i]);
 				hc_puthex(dig, 32);
+#ifndef HC_BLACKBOX
 				/* L2: the message schedule left in W (not written by the SHA-NI variant) */
 				printf(" | W=");
 				if (strcmp(hcpu_sha_path(), "shani") == 0)
@@ -202,6 +215,7 @@ main(void)
 				else
 					for (i = 0; i < 64; i++)
 						printf("%08x", W[i]);
+#endif
 			}
 			free(b);
 			free(c);
@@ -258,8 +272,10 @@ main(void)
 			uint8_t * nonce;
 			size_t nlen;
 			int inplace = (strcmp(hc_tok[4], "i") == 0);
+#ifndef HC_BLACKBOX
 			uint64_t bytectr;
 			uint8_t pblk[16], sbuf[16];
+#endif
 
 			b = hc_unhex(hc_tok[1], &blen);
 			nonce = hc_unhex(hc_tok[2], &nlen);
@@ -285,6 +301,7 @@ main(void)
 					off += lens[i];
 				}
 				hc_puthex(out, clen);
+#ifndef HC_BLACKBOX
 				hcpu_ctr_state(s, &bytectr, pblk, sbuf);
 				printf(" | bytectr=%llu pblk=", (unsigned long long)bytectr);
 				if (bytectr == 0) {
@@ -296,6 +313,7 @@ main(void)
 				/* buf is only meaningful in the middle of a block */
 				printf(" buf=");
 				hc_puthex(sbuf, (bytectr % 16) ? 16 : 0);
+#endif
 				if (!inplace)
 					unplace(&pl2);
 				unplace(&pl);
